@@ -69,8 +69,15 @@ def _axis_arg(i, form):
 _EMPTY = {"sum": 0.0, "prod": 1.0}
 
 
-def _eval(func, term, dtype):
-    vals = [A.cell_enc(c, dtype) for c in term["fib"]]
+def _venc(c, dtype, zeros):
+    """cell -> value; in the 'zeros' variant even identifiers stand for the value 0 (falsy data for all / any / prod / min)"""
+    if zeros and c >= 0 and c % 2 == 0:
+        return {"f": 0.0, "i": 0, "b": False}[dtype]
+    return A.cell_enc(c, dtype)
+
+
+def _eval(func, term, dtype, zeros=False):
+    vals = [_venc(c, dtype, zeros) for c in term["fib"]]
     if term["nan"] and func not in ("all", "any"):
         return np.nan
     if not vals:
@@ -132,14 +139,20 @@ def replay(scn):
     import warnings
     warnings.simplefilter("ignore")
     try:
+      for zeros in (False, True):
         a = A.gamma(a_abs, codec, [kinds[d] for d in a_abs["dims"]])
-        before = A.snapshot(a)
         dt = a_abs["dtype"]
+        if zeros:
+            flat = a.values.reshape(-1)
+            for k, c in enumerate(a_abs["cells"]):
+                if c >= 0 and c % 2 == 0:
+                    flat[k] = _venc(c, dt, True)
+        before = A.snapshot(a)
         forms = (0, 1) if i["spec"]["k"] == "tuple" else (0,)
         for func in FUNCS:
             if func == "ptp" and dt == "b":
                 continue
-            expected_vals = [_eval(func, t, dt) for t in exp["cells"]]
+            expected_vals = [_eval(func, t, dt, zeros) for t in exp["cells"]]
             for form in forms:
                 ax = _axis_arg(i, form)
                 calls += 1
@@ -156,7 +169,9 @@ def replay(scn):
                 if what is None:
                     what = _check_result(res, exp, expected_vals, codec, kinds) or None
                 if what:
-                    viol.append(dict(what=what, sig=signature(scn, func, "form%d" % form), variant="%s form=%d" % (func, form)))
+                    viol.append(dict(what=what, sig=signature(scn, func, "form%d%s" % (form, "/zeros" if zeros else "")), variant="%s form=%d zeros=%s" % (func, form, zeros)))
+        if zeros:
+            continue
         # percentile (a library function): single axis, NaN propagates as in NumPy
         if i["spec"]["k"] in ("name", "pos") and not i["skipna"] and dt != "b":
             from dimarray.lib import percentile
